@@ -1,6 +1,9 @@
 SPECIFICATION Spec
 CONSTANTS
   Sample = 0
+  SampX <- MCNone
+  SampX0 <- MCNone
+  SampB <- MCNone
   NProg = 2
   Grid <- MCGrid
   Initials <- MCInitials2
